@@ -161,6 +161,21 @@ def rule_pair(ctx):
     src = full(sy.node)
     ctx.ob('C17.pair', f'{sy.fq}:own-id', U.before(src, 'self.node_id = self.server._next_node_id()', "send_msg('/s_new', self.def_name, self.node_id,"),
            'the creation command carries the id just allocated for this object', sy.node, sy.module)
+    ag = repo.func('sc3.synth.node:AbstractGroup.__init__')
+    src = full(ag.node)
+    ctx.ob('C17.pair', f'{ag.fq}:own-id', U.before(src, 'self.node_id = self.server._next_node_id()', 'self.server.addr.send_msg(self.creation_cmd(), self.node_id, add_action_id, target.node_id)'),
+           'a group is created with its own fresh id, the add action and the target id (3 arguments)', ag.node, ag.module)
+    T = table()['commands']
+    for ci in repo.classes.values():
+        if ci.module.name == 'sc3.synth.node' and 'creation_cmd' in ci.methods:
+            f = ci.methods['creation_cmd']
+            rets = [r for r in walk_local(f.node) if isinstance(r, ast.Return)]
+            if len(rets) == 1 and isinstance(rets[0].value, ast.Constant) and isinstance(rets[0].value.value, str):
+                cmd = rets[0].value.value
+                ctx.ob('C17.pair', f'{f.fq}:{cmd}', cmd in T and T[cmd]['min'] == 3,
+                       f'{ci.name} is created with {cmd!r}, which must be a group-creation command taking (id, add action, target)', f.node, ci.module)
+            elif not (len(rets) == 0):
+                ctx.ob('C17.pair', f'{f.fq}:literal', any(isinstance(x, ast.Raise) for x in walk_local(f.node)), 'creation command must be a literal (or abstract)', f.node, ci.module)
     nf = repo.func('sc3.synth.server:Server._next_node_id')
     ctx.ob('C17.pair', f'{nf.fq}', 'return self._node_allocator.alloc()' in full(nf.node), 'server node ids come from the node allocator', nf.node, nf.module)
 
@@ -252,6 +267,8 @@ MUTANTS = [
          new="        if exc_type is None and self._send:\n            self._server._addr = self._save_addr\n            self._send_last_bundle()"),
     dict(rule='C17.bind', name='proxy send_msg also sends', file='sc3/base/netaddr.py',
          old="    def send_msg(self, *args):\n        self._bundle.append(list(args))", new="    def send_msg(self, *args):\n        self._bundle.append(list(args))\n        self._save_addr.send_msg(*args)"),
+    dict(rule='C17.pair', name='group created with the target id as its own', file='sc3/synth/node.py',
+         old="            self.creation_cmd(), self.node_id,\n            add_action_id, target.node_id)", new="            self.creation_cmd(), target.node_id,\n            add_action_id, self.node_id)"),
 ]
 
 REPAIRS = []
